@@ -169,20 +169,39 @@ pub fn random_big(rng: &mut Rng, cases: u64, out: &mut Out) {
             run += 1;
             emit_reset(out, run, "big");
         }
-        let t = rand_u64(rng);
+        let mut t = rand_u64(rng);
         let dec9 = rng.chance(2, 3);
-        let kind = *rng.pick(&["count", "pct", "quorum"]);
-        let p = rand_pct(rng, P18 / 2, dec9);
-        let q = rand_pct(rng, 1, dec9);
+        let mut kind = *rng.pick(&["count", "pct", "quorum"]);
+        let mut p = rand_pct(rng, P18 / 2, dec9);
+        let mut q = rand_pct(rng, 1, dec9);
+        let mut near: Option<(u64, u64)> = None; // (opinions base w, integer m with w*p just above m)
+        if rng.chance(1, 3) {
+            // percentages for which weight * percentage lies a hair above an integer: the rounding of
+            // votes_needed matters exactly here (7th-9th and 16th-18th decimal place)
+            let w = if rng.chance(3, 4) { rng.range(2, 2000) } else { rng.range(2000, 2_000_000) };
+            let m = rng.range((w + 1) / 2, w);
+            let unit: u128 = if dec9 { 1_000_000_000 } else { 1 };
+            let steps = P18 / unit;
+            let base = ((m as u128) * steps + (w as u128) - 1) / (w as u128); // ceil(m/w) in units
+            let pa = ((base + rng.below(3) as u128) * unit).clamp(P18 / 2, P18);
+            kind = *rng.pick(&["pct", "quorum"]);
+            p = pa;
+            if kind == "quorum" && rng.chance(1, 2) {
+                q = pa;
+            }
+            t = w + rng.below(4);
+            near = Some((w, m));
+        }
         let weight = if t == 0 { 1 } else { 1 + rng.next() % t };
         let expired = rng.chance(1, 2);
         // tally: abstain first, then yes around the requirement, the rest split
-        let ab = match rng.below(4) { 0 => 0, 1 => t, _ => upto(rng, t) };
+        let ab = if let Some((w, _)) = near { t - w } else { match rng.below(4) { 0 => 0, 1 => t, _ => upto(rng, t) } };
         let rest = t - ab;
         let target = match kind {
             "count" => weight,
             _ => ceil_needed(rest, p),
         };
+        let target = if let Some((_, m)) = near { if rng.chance(1, 2) { m } else { m + 1 } } else { target };
         let y = match rng.below(6) {
             0 => target.saturating_sub(1),
             1 | 2 => target,
